@@ -21,6 +21,8 @@ def main():
         import check_c04 as m
     elif pid == "C06":
         import check_c06 as m
+    elif pid == "C18":
+        import check_c18 as m
     elif pid == "C20":
         import check_c20 as m
     elif pid == "C07":
